@@ -231,15 +231,27 @@ def structure_diff(spec, sysobj):
     if set(nodes) != names:
         out.append(("component set", sorted(names ^ set(nodes))))
         return out
-    par = sysobj._get_parents()
+    try:
+        par = sysobj._get_parents()
+    except Exception as e:  # noqa: BLE001 - e.g. a stale PMux input name resolving to node -1
+        par = None
+        out.append(("<parents>", "input order unreadable", H.exc_sig(e)))
     for c in spec["comps"]:
         idx = nodes[c["name"]]
         obj = g[idx]
         if type(obj).__name__ != c["kind"]:
             out.append((c["name"], "kind", c["kind"], type(obj).__name__))
-        p = par[idx]
-        got = [] if p == -1 else [g[i]._params["name"] for i in p]
-        if got != c["parents"]:
+        try:
+            if par is not None:
+                p = par[idx]
+                got = [] if p == -1 else [g[i]._params["name"] for i in p]
+                same = got == c["parents"]
+            else:
+                got = sorted(g[i]._params["name"] for i in g.predecessor_indices(idx))
+                same = got == sorted(c["parents"])
+        except Exception as e:  # noqa: BLE001
+            got, same = H.exc_sig(e), False
+        if not same:
             out.append((c["name"], "parents", c["parents"], got))
         if g.attrs["groups"].get(c["name"]) != c.get("group", ""):
             out.append((c["name"], "group", c.get("group", ""), g.attrs["groups"].get(c["name"])))
